@@ -48,11 +48,11 @@ def texts(tier):
     n = 2 if tier == 'quick' else 3
     ts = [''.join(t) for k in range(0, n + 1) for t in itertools.product(SIGMA, repeat=k)]
     ts += ['a\r\nb\r\n', 'a\r\nb', 'a\nb\nc\nd', 'a\nb\nc\nd\n', 'a\fb\nc', 'ab\n' * 5, ' a \n\n', '\n\n\n', 'a\rb\n', 'a\x0bb\x1cc\x1dd\x1ee\n',
-           'line1\nline2\nline3\nline4\nline5']
+           'line1\nline2\nline3\nline4\nline5', '\u2028\na', '\u00e9a\n', '\u00e9\n\u00e9', 'a\u00e9\u20ac\U0001f600\nb']
     return ts
 
 
-BIG = ['x' * 8191 + '\n', 'x' * 8192 + '\n', ('y' * 99 + '\n') * 82, ('y' * 99 + '\n') * 300, 'z' * 20000]
+BIG = ['\u00e9\n' * 5000, '\u00e9' * 9000 + '\ntail\n', 'x' * 8191 + '\n', 'x' * 8192 + '\n', ('y' * 99 + '\n') * 82, ('y' * 99 + '\n') * 300, 'z' * 20000]
 
 
 def event_seqs(tier):
